@@ -358,15 +358,19 @@ fn main() {
         },
     };
 
-    // Check if we were interrupted during execution
-    if interrupted.load(Ordering::SeqCst) {
-        // We were interrupted - exit gracefully to allow Drop destructors to run
-        eprintln!("Operation interrupted, cleaning up...");
-        std::process::exit(130);
-    }
+    // A command that failed reports its failure even if a signal arrived meanwhile: the tree may
+    // be partially changed and the caller must not mistake that for a clean interruption.
+    let was_interrupted = interrupted.load(Ordering::SeqCst);
 
     match result {
-        Ok(()) => std::process::exit(0),
+        Ok(()) => {
+            if was_interrupted {
+                // We were interrupted - the command has returned, so Drop destructors have run
+                eprintln!("Operation interrupted, cleaning up...");
+                std::process::exit(130);
+            }
+            std::process::exit(0)
+        },
         Err(e) => {
             eprintln!("Error: {e:#}");
 
